@@ -20,7 +20,7 @@ pub fn beq4(a: &Coor4D, b: &Coor4D) -> bool {
 }
 
 pub fn any_c4() -> Coor4D {
-    Coor4D([kani::any(), kani::any(), kani::any(), kani::any()])
+    Coor4D([nd(), nd(), nd(), nd()])
 }
 
 pub fn finite4(c: &Coor4D) -> bool {
@@ -68,13 +68,18 @@ pub fn mk_descriptor(fwd: InnerOp, inv: InnerOp, invertible: bool, inverted: boo
     }
 }
 
-pub fn mk_op(params: ParsedParameters, fwd: InnerOp, inv: InnerOp) -> Op {
-    Op {
+/// Harness-built operators are never dropped (`ManuallyDrop`): some of their strings and
+/// vectors borrow static or stack memory (see `sstring`), and a failing assertion replayed
+/// natively unwinds through the harness.
+pub type MOp = std::mem::ManuallyDrop<Op>;
+
+pub fn mk_op(params: ParsedParameters, fwd: InnerOp, inv: InnerOp) -> MOp {
+    std::mem::ManuallyDrop::new(Op {
         descriptor: mk_descriptor(fwd, inv, true, false),
         params,
         steps: Vec::new(),
         id: nil_handle(),
-    }
+    })
 }
 
 // ---- bounded value domains for obligations that need float *arithmetic* equivalence.
@@ -85,14 +90,14 @@ pub fn mk_op(params: ParsedParameters, fwd: InnerOp, inv: InnerOp) -> Op {
 
 /// D-SMALL: the integers -3..=3 as f64 (symbolic choice)
 pub fn small_f() -> f64 {
-    let i: i8 = kani::any();
+    let i: i8 = nd();
     kani::assume(i >= -3 && i <= 3);
     i as f64
 }
 
 /// D-SMALLNZ: the integers 1..=4 as f64 (symbolic choice), all distinct from 0
 pub fn small_pos() -> f64 {
-    let i: u8 = kani::any();
+    let i: u8 = nd();
     kani::assume(i >= 1 && i <= 4);
     i as f64
 }
@@ -101,7 +106,7 @@ pub const D_TABLE: [f64; 8] = [0.0, -0.0, 1.0, -2.5, 1e10, 3.0000000000000004, f
 
 /// D-TABLE: symbolic choice among 8 generic and special doubles
 pub fn table_f() -> f64 {
-    let i: usize = kani::any();
+    let i: usize = nd();
     kani::assume(i < 8);
     D_TABLE[i]
 }
@@ -177,9 +182,88 @@ impl Context for NullCtx {
 }
 
 /// Parameter set whose `name` is a static-backed string (resolved by symbolic execution)
-pub fn mk_params_s(name: &'static str) -> ParsedParameters {
-    let mut p = mk_params("");
+pub fn mk_params_s(name: &'static str) -> std::mem::ManuallyDrop<ParsedParameters> {
+    let mut p = std::mem::ManuallyDrop::new(mk_params(""));
     let old = std::mem::replace(&mut p.name, sstring(name));
     std::mem::forget(old);
     p
+}
+
+// ---- nondeterministic inputs that survive CBMC's formula slicing.
+// Counterexample replay uses Kani's concrete playback, which lists the values of the
+// `kani::any()` calls in call order. Without `--slice-formula` the playback run of a harness
+// takes 10x longer than the proof run; with it, inputs outside the cone of influence of the
+// failing assertion vanish from the trace and the remaining values shift position. Every input
+// is therefore "pinned" by a trivially true assertion that the simplifier does not remove.
+pub trait Pinned: Sized {
+    fn nd() -> Self;
+}
+macro_rules! pin_int {
+    ($($t:ty),*) => { $(impl Pinned for $t {
+        fn nd() -> Self { let v: $t = kani::any(); assert!((v | 1) != 0); v }
+    })* };
+}
+pin_int!(u8, u16, u32, u64, usize, i8, i16, i32, i64);
+impl Pinned for bool {
+    fn nd() -> Self {
+        let v: bool = kani::any();
+        assert!((v as u8 | 2) != 0);
+        v
+    }
+}
+impl Pinned for f64 {
+    fn nd() -> Self {
+        let v: f64 = kani::any();
+        assert!((v.to_bits() | 1) != 0);
+        v
+    }
+}
+impl Pinned for f32 {
+    fn nd() -> Self {
+        let v: f32 = kani::any();
+        assert!((v.to_bits() | 1) != 0);
+        v
+    }
+}
+// arrays are drawn element by element: Kani's concrete playback does not list array-typed
+// nondeterministic values
+impl<T: Pinned, const N: usize> Pinned for [T; N] {
+    fn nd() -> Self {
+        core::array::from_fn(|_| T::nd())
+    }
+}
+
+/// `kani::any()` + pin
+pub fn nd<T: Pinned>() -> T {
+    T::nd()
+}
+
+// ---- S-ACC (flags): `ParsedParameters::boolean` answered from a harness-owned table.
+// A flag set built with `if f { set.insert(..) }` for a symbolic f has a symbolic *shape*, and
+// every later lookup then forks; the table keeps the shape concrete. `set_flag` also fills the
+// real set, so that a native replay (where stubs are not applied) sees the same parameters.
+pub static mut ACC_FLAGS: [(&'static str, bool); 10] = [("", false); 10];
+pub static mut ACC_NFLAGS: usize = 0;
+
+pub fn set_flag(p: &mut ParsedParameters, key: &'static str, value: bool) {
+    if value {
+        p.boolean.insert(key);
+    }
+    unsafe {
+        ACC_FLAGS[ACC_NFLAGS] = (key, value);
+        ACC_NFLAGS += 1;
+    }
+}
+
+pub fn acc_boolean(_p: &ParsedParameters, key: &str) -> bool {
+    unsafe {
+        let mut i = 0;
+        while i < ACC_NFLAGS {
+            if ACC_FLAGS[i].0 == key {
+                return ACC_FLAGS[i].1;
+            }
+            i += 1;
+        }
+    }
+    false
 }
